@@ -240,6 +240,22 @@ fn check_item(it: &Item) -> Report {
             chk.rep.witnesses_found += (!paths.is_empty()) as u64;
         }
     }
+    // translator validation: the same scenario natively at f64 must have the same outcome class as the symbolic run
+    // (a mismatch means the harness or the Sym instantiation misrepresents the code: reported as an error, exit 2)
+    {
+        let nv = entry::native_vals(s, 3);
+        let (ep, buf, ys): (&Ep, Option<&[usize]>, Option<&[usize]>) = match &it.what {
+            What::Fill(ep) => (ep, None, None),
+            What::WrongBuf(ep, sh, _) => (ep, Some(sh), None),
+            What::WrongYs(ep, ys) => (ep, None, Some(ys)),
+        };
+        let nat_ok = entry::native_run(s, &nv, ep, buf, ys).is_ok();
+        let sym_ok_expected = matches!(&it.what, What::Fill(_));
+        chk.rep.validations += 1;
+        if chk.rep.findings.is_empty() && nat_ok != sym_ok_expected {
+            chk.rep.errors.push(format!("{}: native run {} but the symbolic run {} (translator validation)", it.name(), if nat_ok { "succeeds" } else { "fails" }, if sym_ok_expected { "succeeded" } else { "was rejected" }));
+        }
+    }
     chk.rep
 }
 
@@ -304,7 +320,7 @@ fn items(args: &Args) -> Vec<Item> {
     }
     let mut qsets: Vec<(Vec<usize>, QRank)> = vec![(vec![2], QRank::Static), (vec![2, 3], QRank::Static), (vec![2], QRank::Dyn), (vec![0], QRank::Static), (vec![0, 2], QRank::Static)];
     if thorough {
-        qsets.extend([(vec![2, 1, 3], QRank::Static), (vec![1, 2], QRank::Dyn), (vec![0], QRank::Dyn), (vec![], QRank::Static)]);
+        qsets.extend([(vec![2, 1, 3], QRank::Static), (vec![1, 2], QRank::Dyn), (vec![0], QRank::Dyn), (vec![], QRank::Static), (vec![1, 2, 3, 1], QRank::Static), (vec![0, 3, 2], QRank::Static), (vec![2, 2, 2], QRank::Dyn)]);
     }
     for (kind, shape, dynamic) in &scens {
         for (qs, qr) in &qsets {
@@ -330,9 +346,22 @@ fn items(args: &Args) -> Vec<Item> {
                 ys[0] += 1;
                 v.push(Item { s: s.clone(), what: What::WrongYs(Ep::Array, ys.clone()), timeout_ms });
                 v.push(Item { s: s.clone(), what: What::WrongYs(Ep::ArrayInto, ys), timeout_ms });
-                if qs.len() == 2 && qs[0] != qs[1] {
+                if qs.len() >= 2 && qs[0] != qs[qs.len() - 1] {
                     let ys: Vec<usize> = qs.iter().rev().copied().collect();
                     v.push(Item { s: s.clone(), what: What::WrongYs(Ep::ArrayInto, ys), timeout_ms });
+                }
+                if qs.len() >= 3 {
+                    // same rank, same element count, same first and last axis, middle axes differ
+                    let mut ys = qs.clone();
+                    ys[1] += 1;
+                    v.push(Item { s: s.clone(), what: What::WrongYs(Ep::ArrayInto, ys.clone()), timeout_ms });
+                    v.push(Item { s: s.clone(), what: What::WrongYs(Ep::Array, ys), timeout_ms });
+                }
+                if qs.len() == 4 && qs[1] != qs[2] {
+                    let mut ys = qs.clone();
+                    ys.swap(1, 2);
+                    v.push(Item { s: s.clone(), what: What::WrongYs(Ep::ArrayInto, ys.clone()), timeout_ms });
+                    v.push(Item { s: s.clone(), what: What::WrongYs(Ep::Array, ys), timeout_ms });
                 }
             }
         }
@@ -346,7 +375,7 @@ pub fn run(args: &Args) -> Report {
         rep.functions.insert(f.to_string());
     }
     rep.bounds.push(format!("Interp1D over data (3,2,3), (3,2), (3,3){} and Interp2D over (2,3,2,3), (2,2,3){}, static and IxDyn data; queries Ix1 x2, Ix2 2x3, IxDyn x2, empty Ix1 and (0,2){}; buffers as offset windows and every-2nd-element windows of a larger poisoned array", if args.thorough() { ", (3), (3,1,2,2), (4,2,3), (4,3,2,2), periodic (4,2), (2,1)" } else { ", (3), (3,1,2,2), (4,2,3)" }, if args.thorough() { ", (3,2), (3,2,2,3)" } else { ", (3,2)" }, ", Ix3, IxDyn 1x2, empty IxDyn, Ix0"));
-    rep.bounds.push("wrong shapes: every axis +1 / -1, trailing axes permuted, leading axes permuted, same element count with another trailing factorisation, leading and trailing swapped, dynamic rank +1 / flattened (IxDyn data and query only), x/y query arrays of different shapes (first axis +1, axes swapped)".into());
+    rep.bounds.push("wrong shapes: every axis +1 / -1, trailing axes permuted, leading axes permuted, same element count with another trailing factorisation, leading and trailing swapped, dynamic rank +1 / flattened (IxDyn data and query only), x/y query arrays of different shapes (first axis +1, axes reversed, a middle axis +1, middle axes swapped with equal element count for rank-4 queries, empty rank-3 queries)".into());
     rep.outside.push("wrong static ranks are rejected by the type system and cannot be expressed".into());
     rep.assumptions.insert("mode O; every data value, buffer cell and filler cell is a distinct symbol, so 'overwritten', 'untouched' and 'equal to the allocating variant' are term identities".into());
     rep
